@@ -225,22 +225,41 @@ theorem step_inv (i : Inst) (ls : List DLayer) (users : List (Bytes × List User
     have hnm : dl.name = x := findD_name ls x dl hd
     have hsp := specSt_eq i ls users hwf x dl hd
     by_cases hn : dl.file.nmsgs > 0
-    · -- layerconfig with messages: the error state, skipped
+    · -- layerconfig with messages: the error state is kept (mounts and users recorded)
       have hst : l0.state = S_error := by rw [hini.st]; simp [hn]
       have hs : (l0.state == S_error) = true := by simp [hst]
       simp only [hs, ↓reduceIte] at hrun
       cases hrun
-      refine ⟨rfl, hI.mounts, hI.keys, hI.forest, ?_, ?_⟩
+      obtain ⟨k1, k2, k3, k4, k5, k6, -, -⟩ := probeErr_key i.cfg users d x l0
+      have k1' : (probeErr i.cfg users d x l0).name = l0.name := k1
+      have k6' : (probeErr i.cfg users d x l0).state = l0.state := k6
+      have hn0' : l0.name = x := findLayer_name d x l0 hf
+      have hn1 : (probeErr i.cfg users d x l0).name = x := k1'.trans hn0'
+      have hfl : findLayer d (probeErr i.cfg users d x l0).name = some l0 := by rw [hn1]; exact hf
+      refine ⟨rfl, rfl.trans hI.mounts, hI.keys.trans (sameKeys_setLayer d l0 _ hfl ?_),
+        forestCorr_setLayer i ls d hI.forest l0 _ hfl ⟨k1, k2, k3, k4, k5⟩, ?_, ?_⟩
+      · unfold lkey
+        rw [k1', show (probeErr i.cfg users d x l0).base = l0.base from k2,
+          show (probeErr i.cfg users d x l0).layerPath = l0.layerPath from k5]
       · intro n l hn' hl
-        rcases List.mem_append.mp hn' with h | h
-        · exact hI.fin n l h hl
-        · simp only [List.mem_cons, List.not_mem_nil, or_false] at h
-          subst h
-          rw [hf] at hl
+        by_cases hnx : n = x
+        · subst hnx
+          have := findLayer_setLayer d l0 _ hfl
+          rw [hn1] at this
+          rw [this] at hl
           cases hl
-          rw [hst, hsp, stateOf_unfold]
+          rw [k6', hst, hsp, stateOf_unfold]
           simp [hn, St.toNat, S_error]
+        · rcases List.mem_append.mp hn' with h | h
+          · unfold findLayer at hl
+            rw [find?_setLayer_other d _ n (by rw [hn1]; exact hnx)] at hl
+            exact hI.fin n l h hl
+          · simp only [List.mem_cons, List.not_mem_nil, or_false] at h
+            exact absurd h hnx
       · intro n l hn' hl
+        have hnx : n ≠ x := fun e => hn' (by simp [e])
+        unfold findLayer at hl
+        rw [find?_setLayer_other d _ n (by rw [hn1]; exact hnx)] at hl
         exact hI.ini n l (fun h => hn' (List.mem_append_left _ h)) hl
     · have hn0 : dl.file.nmsgs = 0 := by omega
       have hst : l0.state = S_empty := by rw [hini.st]; simp [hn]
